@@ -89,6 +89,11 @@ CHECKS['C15'] = dict(
    text='Every program of the control-flow grammar and the repertoire grammar up to 4 (quick) / 5 (thorough) nodes plus ~100 repertoire templates with a binary input, each run six ways ({eval, compile+run, compile+next*} x reverse recording off/on): result or error kind, output, visible stack, heap cells and (for successful runs) call/loop/builder stacks must agree.',
    note='Programs cut by the instruction limit (1500) are compared by result class only.',
    ref='DESIGN.md §4 C15')
+CHECKS['C11'] = dict(
+   technique='exhaustive differential enumeration: every constant expression up to a node bound x contexts, program with the meta block vs program with its literal values, on the real interpreter; exhaustive sealing probes; dictionary/code deltas; compile purity over program corpora',
+   text='Every constant expression of an expression grammar (arithmetic, stack words, vectors, nested meta blocks, local definitions, branches) up to 5 (quick) / 6 (thorough) nodes that evaluates standalone, in 11 contexts (top level, stack neighbours, vector, map value, definition, branch in definition, loop body, outer meta, outer meta vector, variable, after definition): C[#( e #)] vs C[literal values, last first] must agree on result, stack, variables, output. Sealing: all block bodies <= 3 words over a probing alphabet x outer stacks of depth 0..3 x an outer variable. After a block only constants remain (dictionary delta; equal code growth per value class). compile of every program of three grammars leaves stack, variables, output untouched.',
+   note='Value of e obtained by ordinary evaluation (eager nested blocks flattened: they share the parent meta stack, pinned by the suite). User-defined immediate words are outside the property.',
+   ref='DESIGN.md §4 C11')
 
 NOT_BUILT = {}
 
